@@ -242,8 +242,8 @@ def run(tier, seed, acc):
     cfgs = configs(tier, seed)
     run_lattice(MOD, cfgs, acc, shards_per_worker=8)
     c = acc.counts
-    if c.get("steps_ok", 0) < 500 or c.get("solver_returned", 0) < 500 or \
-            c.get("solver_raised_convergence_error", 0) < 50:
+    if not acc.viol and (c.get("steps_ok", 0) < 500 or c.get("solver_returned", 0) < 500 or \
+            c.get("solver_raised_convergence_error", 0) < 50):
         raise HarnessError(f"C04 non-vacuity floor missed: {c}")
     cov = {
         "evaluations": c.get("evaluations", 0),
